@@ -986,7 +986,12 @@ class C17(CaseSpec):
                 c.steps.append("explore")
         allsc = corpus + scen
         limit = 0 if tier == "thorough" else 60
-        cases, counts, class_mismatch = cn.explore(allsc, workdir, limit)
+        # the listed known findings' own scenarios: every schedule, in both tiers
+        cases, counts, class_mismatch = cn.explore(corpus, os.path.join(workdir, "corpus"), 0)
+        cases2, counts2, mm2 = cn.explore(scen, workdir, limit)
+        cases += cases2
+        counts.update(counts2)
+        class_mismatch += mm2
         if class_mismatch:
             log("[%s] class predicate: python and Coq disagree on %d scenarios, e.g. %s" % (prop, len(class_mismatch), class_mismatch[0]))
         results, fls = vlib.run_all(cases, workdir, "c", flavours=self.flavours, hang_secs=self.hang_secs, nshards=32)
